@@ -81,8 +81,16 @@ def run(ctx, rep):
         if (c.callee or "").endswith("Iterator::filter_map"):
             p = op_place(c.args[1])
             d = b.single_def(p[0]) if p and not p[1] else None
+            clos = []
             if d and d[0] == "stmt" and d[3][0] == "agg" and d[3][1].get("k") == "closure":
-                for clo in ctx.prog.get(norm(d[3][1]["def"])):
+                clos = ctx.prog.get(norm(d[3][1]["def"]))
+            else:
+                # the closure written as a named function (`filter_map(file_in_directory)`)
+                k0 = b.const_of(c.args[1])
+                if k0 is not None and len(k0) > 3 and isinstance(k0[3], dict) and k0[3].get("rfn"):
+                    clos = ctx.prog.get(norm(k0[3]["rfn"]))
+            if clos:
+                for clo in clos:
                     ok = False
                     filetest = False
                     for i in sorted(clo.reachable(0)):
